@@ -21,7 +21,8 @@ TRUSTED = ["the mirror law of the numeric kernel (sqrt(1.0001^t) vs sqrt(1.0001^
            "exactly mirrored one is MEASURED here against the property's 1e-12 / 0.1 % (max relative deviation in the evidence)",
            "math.log tick estimates and estimate_ratio are libm oracles"]
 ASSUMPTIONS = ["|tick| <= 330000 + range width: get_liquidity_for_amount0 floors sqrtA*sqrtB/2^96, which has only 2^96*1.0001^t significant units at negative ticks (1e12 at t = -389000), so 1e-12 cannot hold beyond; an extreme-band stream is measured separately",
-               "amounts are compared at 1e-12 relative plus 4 atomic units (integer liquidity floors); liquidity at 1e-12 relative plus 2 units",
+               "amounts are compared at max(1e-12, 2/L_min) relative plus 4 atomic units, L_min = smallest positive liquidity held: liquidity is an "
+               "integer, one unit of it is 1/L of the position (matters below L = 2e12); liquidity itself at 1e-12 relative plus 2 units",
                "a state in which the price lies on a range bound to within 1e-9 relative (in sqrt price) is counted and not compared: there the kernels' "
                "reciprocity error (~1e-17) decides the regime and get_liquidity divides by (s - sqrt_bound); the property's regimes are in / below / above",
                "prices handed to add_liquidity lie in the inner half of a tick-spacing cell, so that rounding to the spacing is orientation independent "
@@ -218,6 +219,12 @@ def regime_flip(P, op):
         return False
 
 
+def liq_granularity(P):
+    """liquidity is an integer: one unit is 1/L of a position, so amounts cannot agree better than ~2/L (relevant below L = 2e12)"""
+    ls = [int(p.liquidity) for w in (P.A, P.B) for p in w.market.positions.values() if p.liquidity > 0]
+    return Fraction(2, min(ls)) if ls else Fraction(0)
+
+
 def apply_both(P, op):
     if op["op"] == "bar":
         return None
@@ -346,7 +353,7 @@ def run_sequence(ctx, rng, n_ops, spec=None):
                 kb = [Fraction(x) for x in rb]
                 if op["op"] in ("add_by_tick", "add", "add_by_value"):
                     kb = [-kb[1], -kb[0]] + kb[2:]
-                tol = TOL_EST if est else TOL
+                tol = TOL_EST if est else max(TOL, liq_granularity(P))
                 price = Fraction(P.A.price)
                 is_add = op["op"] in ("add_by_tick", "add", "add_by_value")
                 # [lower, upper, base, quote, liquidity] for adds, [base, quote] for remove/collect, fee-led triples for swaps:
@@ -369,7 +376,7 @@ def run_sequence(ctx, rng, n_ops, spec=None):
                     ctx.violate(f"mirror.{op['op']}.result", f"{op['op']} ({reg}) returned {[float(x) for x in ka]} vs mirrored {[float(x) for x in kb]}", rep)
                     return
         ctx.case(f"{op['op']}:{reg}:{P.dq}/{P.db}:{P.fee}:{outcome}", rep if len(rep["ops"]) <= 2 else None)
-        tol = TOL_EST if any(o["op"] == "add_by_value" for o in rep["ops"]) else TOL
+        tol = TOL_EST if any(o["op"] == "add_by_value" for o in rep["ops"]) else max(TOL, liq_granularity(P))
         if not compare_obs(ctx, P, observe(P.A, False), observe(P.B, True), f"state-after.{op['op']}", rep, tol):
             return
         if rng.random() < 0.35:
